@@ -225,6 +225,10 @@ func checkC16(c *Ctx) {
 	r.Rule("R16c-index", "constant indexes into descriptor-derived slices are dominated by a length / IsMap guard", 5)
 	r.Rule("R16c-errpair", "a pointer returned together with an error is not dereferenced on a path on which that error is known to be non-nil", 9)
 	errPairedValueUse(c, "R16c-errpair")
+	r.Rule("R16c-nilable", "the result of a library call that can be nil without an error (SchemaProxy.BuildSchema / Schema) is tested against nil on every path to a dereference", 1)
+	nilableResultUse(c, "R16c-nilable")
+	r.Rule("R16h", "every length / capacity handed to make in generator packages is non-negative by construction (a negative one panics)", 1)
+	makeSizesNonNegative(c, "R16h")
 	r.Rule("R16g", "nothing but the encoded response is written to standard output: no fmt.Print*/println, no write to os.Stdout in generator packages other than the plugin's response writer", 1)
 	stdoutDiscipline(c, "R16g")
 
@@ -1336,4 +1340,369 @@ func stdoutDiscipline(c *Ctx, rid string) {
 		})
 	}
 	r.OKd(rid, "standard output is used by the response writer only", "", map[string]any{"stdout_uses": n, "in_plugin_main": nAllowed})
+}
+
+// nilableResults: library functions whose pointer result can be nil although no error is reported (one reason each,
+// confirmed by reading the pinned module source).
+var nilableResults = map[string]string{
+	"(*github.com/pb33f/libopenapi/datamodel/high/base.SchemaProxy).BuildSchema": "libopenapi v0.33.11 schema_proxy.go: returns sp.Schema(), which is nil for a reference proxy (CreateSchemaProxyRef) — every message-typed field — and for a nil proxy, with a nil error",
+	"(*github.com/pb33f/libopenapi/datamodel/high/base.SchemaProxy).Schema":      "libopenapi v0.33.11 schema_proxy.go: nil for a reference proxy whose target is not resolvable in a document under construction",
+}
+
+// nilableResultUse — R16c-nilable. `x, err := p.BuildSchema()` / `x := p.Schema()`: on the go/cfg graph every path from the
+// assignment to a dereferencing use of x (x.f, *x, x[i]) must pass the non-nil arm of a test of x against nil.
+func nilableResultUse(c *Ctx, rid string) {
+	r := c.R
+	n := 0
+	for fn, decl := range c.P.Decls {
+		if decl.Body == nil || !isRepoGenPkg(fn) && !strings.Contains(fn.Pkg().Path(), "/cmd/") {
+			continue
+		}
+		if strings.Contains(c.P.Pos(decl.Pos()), "_test.go") {
+			continue
+		}
+		info := c.P.DeclPkg[fn].TypesInfo
+		type site struct {
+			x   types.Object
+			as  *ast.AssignStmt
+			why string
+			cal string
+		}
+		var sites []site
+		ast.Inspect(decl.Body, func(nd ast.Node) bool {
+			if _, isLit := nd.(*ast.FuncLit); isLit {
+				return false
+			}
+			as, ok := nd.(*ast.AssignStmt)
+			if !ok || len(as.Rhs) != 1 || len(as.Lhs) == 0 {
+				return true
+			}
+			call, ok := ast.Unparen(as.Rhs[0]).(*ast.CallExpr)
+			if !ok {
+				return true
+			}
+			cal := Callee(info, call)
+			if cal == nil {
+				return true
+			}
+			why, ok := nilableResults[cal.FullName()]
+			if !ok {
+				return true
+			}
+			if xi, ok := as.Lhs[0].(*ast.Ident); ok && xi.Name != "_" {
+				if xo := info.ObjectOf(xi); xo != nil {
+					sites = append(sites, site{xo, as, why, cal.Name()})
+				}
+			}
+			return true
+		})
+		if len(sites) == 0 {
+			continue
+		}
+		g := buildCFG(decl.Body)
+		for _, p := range sites {
+			n++
+			var start *cfg.Block
+			startIdx := -1
+			for _, b := range g.Blocks {
+				for i, nd := range b.Nodes {
+					if nd == ast.Node(p.as) {
+						start, startIdx = b, i
+					}
+				}
+			}
+			key := fmt.Sprintf("%s: %s (result of %s) is tested against nil before it is dereferenced", FuncName(fn), p.x.Name(), p.cal)
+			if start == nil {
+				r.Undec(rid, key, c.P.Pos(p.as.Pos()), "assignment not found as a node of the control-flow graph")
+				continue
+			}
+			reassigns := func(nd ast.Node) bool {
+				hit := false
+				ast.Inspect(nd, func(m ast.Node) bool {
+					if as, ok := m.(*ast.AssignStmt); ok {
+						for _, l := range as.Lhs {
+							if id, ok := l.(*ast.Ident); ok && info.ObjectOf(id) == p.x {
+								hit = true
+							}
+						}
+					}
+					return !hit
+				})
+				return hit
+			}
+			derefUse := func(nd ast.Node) ast.Node {
+				var at ast.Node
+				ast.Inspect(nd, func(m ast.Node) bool {
+					if at != nil {
+						return false
+					}
+					if _, isLit := m.(*ast.FuncLit); isLit {
+						return false
+					}
+					var base ast.Expr
+					switch x := m.(type) {
+					case *ast.SelectorExpr:
+						// a method call on a nil pointer is not by itself a dereference; a field selection is
+						if sel, ok := info.Selections[x]; ok && sel.Kind() == types.FieldVal {
+							base = x.X
+						}
+					case *ast.StarExpr:
+						base = x.X
+					}
+					if id, ok := ast.Unparen(base).(*ast.Ident); base != nil && ok && info.ObjectOf(id) == p.x {
+						at = m
+					}
+					return true
+				})
+				return at
+			}
+			var condArms func(e ast.Expr) (int, int)
+			atom := func(e ast.Expr) int { // +1: true arm means x != nil; -1: true arm means x == nil
+				be, ok := ast.Unparen(e).(*ast.BinaryExpr)
+				if !ok || (be.Op != token.NEQ && be.Op != token.EQL) {
+					return 0
+				}
+				var other ast.Expr
+				if id, ok := ast.Unparen(be.X).(*ast.Ident); ok && info.ObjectOf(id) == p.x {
+					other = be.Y
+				} else if id, ok := ast.Unparen(be.Y).(*ast.Ident); ok && info.ObjectOf(id) == p.x {
+					other = be.X
+				}
+				if other == nil || !isNilIdent(other) {
+					return 0
+				}
+				if be.Op == token.NEQ {
+					return 1
+				}
+				return -1
+			}
+			// what each arm of a (possibly compound) condition establishes about x: 1 non-nil, -1 nil, 0 nothing
+			condArms = func(e ast.Expr) (int, int) {
+				e = ast.Unparen(e)
+				if ue, ok := e.(*ast.UnaryExpr); ok && ue.Op == token.NOT {
+					t, f := condArms(ue.X)
+					return f, t
+				}
+				if be, ok := e.(*ast.BinaryExpr); ok && (be.Op == token.LOR || be.Op == token.LAND) {
+					t1, f1 := condArms(be.X)
+					t2, f2 := condArms(be.Y)
+					pick := func(a, b int) int {
+						if a != 0 {
+							return a
+						}
+						return b
+					}
+					if be.Op == token.LOR {
+						return 0, pick(f1, f2) // both operands false on the false arm
+					}
+					return pick(t1, t2), 0 // both operands true on the true arm
+				}
+				switch atom(e) {
+				case 1:
+					return 1, -1
+				case -1:
+					return -1, 1
+				}
+				return 0, 0
+			}
+			type st struct {
+				b     *cfg.Block
+				state int
+			}
+			seen := map[st]bool{}
+			var bad ast.Node
+			var walk func(b *cfg.Block, from int, state int)
+			walk = func(b *cfg.Block, from int, state int) {
+				if bad != nil {
+					return
+				}
+				if from == 0 {
+					k := st{b, state}
+					if seen[k] {
+						return
+					}
+					seen[k] = true
+				}
+				for i := from; i < len(b.Nodes); i++ {
+					nd := b.Nodes[i]
+					if state != 1 {
+						if u := derefUse(nd); u != nil {
+							bad = u
+							return
+						}
+					}
+					if reassigns(nd) {
+						return
+					}
+				}
+				if len(b.Succs) == 2 && len(b.Nodes) > 0 {
+					if cond, ok := b.Nodes[len(b.Nodes)-1].(ast.Expr); ok {
+						if t, f := condArms(cond); t != 0 || f != 0 {
+							next := func(k int) int {
+								if k != 0 {
+									return k
+								}
+								return state
+							}
+							walk(b.Succs[0], 0, next(t))
+							walk(b.Succs[1], 0, next(f))
+							return
+						}
+					}
+				}
+				for _, s := range b.Succs {
+					walk(s, 0, state)
+				}
+			}
+			walk(start, startIdx+1, 0)
+			if bad != nil {
+				r.Bad(rid, key, c.P.Pos(bad.Pos()), fmt.Sprintf("%s dereferences %s (%s) on a path on which it was not tested against nil; %s can return nil without an error (%s): the plugin crashes with a nil dereference instead of returning the document", FuncName(fn), p.x.Name(), types.ExprString(bad.(ast.Expr)), p.cal, p.why), nil)
+			} else {
+				r.OK(rid, key, c.P.Pos(p.as.Pos()))
+			}
+		}
+	}
+	if n == 0 {
+		r.Unres(rid, "uses of nil-able library results", "", "none found (BuildSchema / Schema are no longer called: revisit the table)")
+	}
+}
+
+// makeSizesNonNegative — R16h. A negative length or capacity makes `make` panic (makeslice: cap out of range). In generator
+// packages every size argument of make must be non-negative by construction: constants, len/cap, sums, products, min/max of
+// those, a local defined once as such. A subtraction is accepted only under a comparison guard that mentions its operands.
+func makeSizesNonNegative(c *Ctx, rid string) {
+	r := c.R
+	n := 0
+	for fn, decl := range c.P.Decls {
+		if decl.Body == nil || !isRepoGenPkg(fn) && !strings.Contains(fn.Pkg().Path(), "/cmd/") {
+			continue
+		}
+		if strings.Contains(c.P.Pos(decl.Pos()), "_test.go") {
+			continue
+		}
+		info := c.P.DeclPkg[fn].TypesInfo
+		parents := parentMap(decl.Body)
+		var nonNeg func(e ast.Expr, depth int) (bool, ast.Expr)
+		nonNeg = func(e ast.Expr, depth int) (bool, ast.Expr) {
+			e = ast.Unparen(e)
+			if tv, ok := info.Types[e]; ok && tv.Value != nil {
+				if tv.Value.Kind() == constant.Int && constant.Sign(tv.Value) >= 0 {
+					return true, nil
+				}
+				return false, e
+			}
+			switch x := e.(type) {
+			case *ast.CallExpr:
+				if id, ok := x.Fun.(*ast.Ident); ok {
+					if _, isB := info.ObjectOf(id).(*types.Builtin); isB {
+						switch id.Name {
+						case "len", "cap":
+							return true, nil
+						case "min", "max":
+							for _, a := range x.Args {
+								if ok, w := nonNeg(a, depth); !ok {
+									return false, w
+								}
+							}
+							return true, nil
+						}
+					}
+				}
+				if tv, ok := info.Types[x.Fun]; ok && tv.IsType() && len(x.Args) == 1 {
+					return nonNeg(x.Args[0], depth)
+				}
+				return true, nil // a function's result: not a subtraction the rule can see
+			case *ast.BinaryExpr:
+				switch x.Op {
+				case token.ADD, token.MUL, token.QUO, token.REM, token.SHR, token.SHL:
+					if ok, w := nonNeg(x.X, depth); !ok {
+						return false, w
+					}
+					return nonNeg(x.Y, depth)
+				case token.SUB:
+					return false, x
+				}
+				return true, nil
+			case *ast.UnaryExpr:
+				if x.Op == token.SUB {
+					return false, x
+				}
+				return true, nil
+			case *ast.Ident:
+				if depth < 3 {
+					if d := localDef(info, decl.Body, x); d != nil {
+						return nonNeg(d, depth+1)
+					}
+				}
+				return true, nil
+			}
+			return true, nil
+		}
+		ast.Inspect(decl.Body, func(nd ast.Node) bool {
+			call, ok := nd.(*ast.CallExpr)
+			if !ok {
+				return true
+			}
+			id, ok := call.Fun.(*ast.Ident)
+			if !ok || id.Name != "make" || len(call.Args) < 2 {
+				return true
+			}
+			if _, isB := info.ObjectOf(id).(*types.Builtin); !isB {
+				return true
+			}
+			n++
+			for _, a := range call.Args[1:] {
+				ok, w := nonNeg(a, 0)
+				if ok {
+					continue
+				}
+				// guarded? an enclosing if (or an earlier early-exit if in an enclosing block) comparing the operands
+				guarded := false
+				if be, isSub := w.(*ast.BinaryExpr); isSub {
+					ops := []string{types.ExprString(ast.Unparen(be.X)), types.ExprString(ast.Unparen(be.Y))}
+					mentions := func(cond ast.Expr) bool {
+						hit := false
+						ast.Inspect(cond, func(m ast.Node) bool {
+							if cb, ok := m.(*ast.BinaryExpr); ok {
+								switch cb.Op {
+								case token.LSS, token.GTR, token.LEQ, token.GEQ, token.EQL, token.NEQ:
+									t := types.ExprString(cb)
+									if strings.Contains(t, ops[0]) && (strings.Contains(t, ops[1]) || info.Types[be.Y].Value != nil) {
+										hit = true
+									}
+								}
+							}
+							return !hit
+						})
+						return hit
+					}
+					for p := parents[ast.Node(call)]; p != nil; p = parents[p] {
+						switch q := p.(type) {
+						case *ast.IfStmt:
+							if mentions(q.Cond) {
+								guarded = true
+							}
+						case *ast.BlockStmt:
+							for _, st := range q.List {
+								if st.Pos() >= call.Pos() {
+									break
+								}
+								if ifs, ok := st.(*ast.IfStmt); ok && mentions(ifs.Cond) {
+									guarded = true
+								}
+							}
+						}
+					}
+				}
+				key := fmt.Sprintf("%s: make size %s is non-negative", FuncName(fn), types.ExprString(a))
+				if guarded {
+					r.OKd(rid, key, c.P.Pos(call.Pos()), map[string]any{"guarded": true})
+				} else {
+					r.Bad(rid, key, c.P.Pos(call.Pos()), fmt.Sprintf("%s sizes a make with %s, which contains %s: nothing on the way establishes that it is not negative; for a request where it is (more bound parameters than fields, an empty list) the plugin panics with `makeslice: len/cap out of range` instead of returning files or an error", FuncName(fn), types.ExprString(a), types.ExprString(w)), nil)
+				}
+			}
+			return true
+		})
+	}
+	r.OKd(rid, "sized make calls in generator packages inspected", "", map[string]any{"sized_make_calls": n})
 }
